@@ -133,6 +133,7 @@ func TestC06(t *testing.T) {
 		kinds := make([]string, 0, n)
 		var ptrs []interface{} // pointers to structs written so far (candidates for a repeat)
 		var classes []reflect.Type
+		var conts []interface{} // non-empty slices and maps written so far
 		for i := 0; i < n; i++ {
 			k := rapid.IntRange(0, 9).Draw(rt, "valueKind")
 			switch {
@@ -149,6 +150,10 @@ func TestC06(t *testing.T) {
 				vals = append(vals, p.Interface())
 				ptrs = append(ptrs, p.Interface())
 				kinds = append(kinds, "same-class:"+typ.Name())
+			case k == 3 && len(conts) > 0:
+				// the same non-empty slice or map again: travels as a back-reference to a list / map
+				vals = append(vals, conts[rapid.IntRange(0, len(conts)-1).Draw(rt, "againContainer")])
+				kinds = append(kinds, "repeat-container")
 			case k == 2:
 				vals = append(vals, rapid.SampledFrom([]interface{}{nil, "", time.Time{}, map[string]int32{}, (*zoo.Inner)(nil)}).Draw(rt, "nullish"))
 				kinds = append(kinds, "null-rendered")
@@ -160,6 +165,9 @@ func TestC06(t *testing.T) {
 				}
 				vals = append(vals, v)
 				kinds = append(kinds, shape)
+				if rv := reflect.ValueOf(v); (rv.Kind() == reflect.Slice && rv.Type().Elem().Kind() != reflect.Uint8 || rv.Kind() == reflect.Map) && rv.Len() > 0 {
+					conts = append(conts, v)
+				}
 				if rv := reflect.ValueOf(v); rv.Kind() == reflect.Ptr && rv.Elem().Kind() == reflect.Struct {
 					ptrs = append(ptrs, v)
 					classes = append(classes, rv.Elem().Type())
@@ -256,7 +264,7 @@ func TestC06(t *testing.T) {
 		reused := false
 		for _, k := range kinds {
 			distinctTop[k] = true
-			if k == "repeat-pointer" || strings.HasPrefix(k, "same-class:") {
+			if k == "repeat-pointer" || k == "repeat-container" || strings.HasPrefix(k, "same-class:") {
 				reused = true
 			}
 		}
